@@ -177,6 +177,11 @@ class Verdict:
         self.known_hit = {}    # sig -> count
         self.cov = {}
         self.assumptions = []
+        # replays of earlier runs of this property are stale
+        if os.path.isdir(REPLAY):
+            for f in os.listdir(REPLAY):
+                if f.startswith(pid + "-"):
+                    os.remove(os.path.join(REPLAY, f))
 
     def violation(self, sig, desc, replay_obj):
         """sig: stable signature of the failing input/call site/history class."""
